@@ -137,7 +137,44 @@ def mutations(p, rng, max_paren=12):
         yield ("add-paren", s.cons or util.stmt_kind(s.text()), True, new)
 
 
+def run_zoo(case):
+    """single statements of every kind the program generator knows, each inside a subroutine:
+    EVERY single deletion / duplication of a parenthesis or bracket outside character context
+    (exhaustive per statement) must be rejected"""
+    std = case["std"]
+    res = {"key": ["zoo", case["seed"], std], "counts": {}, "findings": [], "nontrivial": True, "keys": []}
+    g = gen.G(random.Random(case["seed"]), std=std, max_depth=1)
+    zoo = [g.use_stmt()[0] for _ in range(4)] + [g.type_decl()[0] for _ in range(6)]
+    zoo += [x for x in (g.spec_misc() for _ in range(10)) if isinstance(x, gen.St)]
+    zoo += [g.io_stmt() for _ in range(8)] + [g.action() for _ in range(10)] + [g.format_stmt() for _ in range(2)]
+    n = 0
+    for st in zoo:
+        if not isinstance(st, gen.St):
+            continue
+        line = st.text()
+        if real.try_parse("subroutine s\n  %s\nend subroutine s\n" % line, std=std, free=True).kind != "tree":
+            continue
+        kind_ = util.stmt_kind(line)
+        for k in _paren_positions(line):
+            for kind, new in (("del-paren", line[:k] + line[k + 1:]), ("add-paren", line[:k] + line[k] + line[k:])):
+                src = "subroutine s\n  %s\nend subroutine s\n" % new
+                n += 1
+                res["keys"].append("%d:%s:%d:%s" % (case["seed"], kind_, k, kind[0]))
+                res["counts"]["zoo:" + kind_] = res["counts"].get("zoo:" + kind_, 0) + 1
+                o = real.try_parse(src, std=std, free=True)
+                if o.kind == "tree":
+                    known = findings.classify("C08", src, {"std": std, "kind": kind, "cons": kind_})
+                    res["findings"].append({"signature": known or ("accepted:%s/%s" % (kind, kind_)),
+                                            "what": "ill-formed statement accepted (%s): %r printed as %r" % (kind, new, str(o.tree).split("\n")[1].strip()[:160]),
+                                            "replay": {"case": case, "source": src, "mutation": kind, "cons": kind_}})
+    res["evals"] = n
+    res["nkeys"] = n
+    return res
+
+
 def run_case(case):
+    if case.get("kind") == "zoo":
+        return run_zoo(case)
     p = util.program_case(case)
     std = case["std"]
     res = {"key": [case["seed"], std], "counts": {}, "findings": [], "nontrivial": True}
@@ -175,8 +212,11 @@ def run_case(case):
 
 def cases(tier, seed):
     n = util.tier_n(tier, 64, 600)
-    return [{"seed": s, "std": "f2008" if i % 3 else "f2003", "size": 0.8, "_timeout": 900}
-            for i, s in enumerate(util.seeds(seed, n, 8))]
+    out = [{"seed": s, "std": "f2008" if i % 3 else "f2003", "size": 0.8, "_timeout": 900}
+           for i, s in enumerate(util.seeds(seed, n, 8))]
+    out += [{"kind": "zoo", "seed": s, "std": "f2008" if i % 2 else "f2003", "_timeout": 900}
+            for i, s in enumerate(util.seeds(seed, util.tier_n(tier, 16, 160), 88))]
+    return out
 
 
 def run(tier, rep, st):
